@@ -191,7 +191,10 @@ type vf25Case struct {
 	ClientKind string
 	Parrot     ClientHelloID
 	Tickets    bool
-	NoDynamic  bool
+	// CliSess: the client's own session settings - "" | "cache" | "tickets-disabled" | "cache+tickets-disabled"
+	// (all legal; a server that sends NewSessionTicket after the handshake must not disturb the byte stream)
+	CliSess   string
+	NoDynamic bool
 	Seed       uint64
 	Ops        []vf25Op
 	Bufs       []int
@@ -222,7 +225,7 @@ func (c *vf25Case) opsString() string {
 
 func (c *vf25Case) describe() map[string]any {
 	return map[string]any{"suite": fmt.Sprintf("%#04x", c.Suite.id), "kind": c.Suite.kind, "version": fmt.Sprintf("%#04x", c.Vers),
-		"client": c.ClientKind, "tickets": c.Tickets, "no_dynamic_sizing": c.NoDynamic, "seed": c.Seed, "ops": c.opsString(),
+		"client": c.ClientKind, "tickets": c.Tickets, "client_session_settings": c.CliSess, "no_dynamic_sizing": c.NoDynamic, "seed": c.Seed, "ops": c.opsString(),
 		"read_bufs": c.Bufs, "late_tail": c.LateTail, "fault": fmt.Sprintf("%+v", c.Fault)}
 }
 
@@ -473,6 +476,12 @@ func vf25Run(c *vf25Case) (class string, viol string, info string) {
 	ccfg.Rand = vfNewDetRand(c.Seed, "c25-client")
 	ccfg.DynamicRecordSizingDisabled = c.NoDynamic
 	ccfg.MinVersion, ccfg.MaxVersion = VersionTLS10, VersionTLS13
+	if strings.Contains(c.CliSess, "cache") {
+		ccfg.ClientSessionCache = NewLRUClientSessionCache(4)
+	}
+	if strings.Contains(c.CliSess, "tickets-disabled") {
+		ccfg.SessionTicketsDisabled = true
+	}
 	var p *vfPair
 	switch c.ClientKind {
 	case "custom":
@@ -712,6 +721,7 @@ func vf25GenCase(rt *rapid.T) *vf25Case {
 		}
 	}
 	c.Tickets = rapid.Bool().Draw(rt, "tickets")
+	c.CliSess = rapid.SampledFrom([]string{"", "", "cache", "tickets-disabled", "cache+tickets-disabled", "cache+tickets-disabled"}).Draw(rt, "client_session_settings")
 	c.NoDynamic = rapid.Bool().Draw(rt, "nodynamic")
 	c.Seed = rapid.Uint64().Draw(rt, "seed")
 	nops := rapid.IntRange(1, 8).Draw(rt, "nops")
@@ -816,6 +826,7 @@ func TestVerifC25Sweep(t *testing.T) {
 		for _, v := range s.versions() {
 			for fi, f := range faults {
 				c := &vf25Case{Suite: s, Vers: v, ClientKind: "custom", Tickets: fi%2 == 0, NoDynamic: (si+fi)%2 == 0, Seed: uint64(si*10 + fi),
+					CliSess: []string{"cache+tickets-disabled", "", "cache", "tickets-disabled"}[(si+fi)%4],
 					Ops: script, Bufs: []int{1 << 14, 7, 1<<14 + 1}, Fault: f}
 				vf25Judge(st, t, c)
 			}
